@@ -36,6 +36,12 @@ CLAIMS["C20"] = dict(
    note=TRUST + ". The whole-tree statement is the structural induction whose step is each Accept postcondition (not mechanised); visitors are assumed not to modify the AST; strings.Split is a trusted contract.",
    technique="contract-based deductive verification: ghost visited/symSeen sets, per-type Accept postconditions, go/types enumeration for completeness")
 
+CLAIMS["C10"] = dict(
+   text="Panic-freedom sweep: for every function of the hand-written AST/typing/listener files of package ast (about 500 functions, enumerated on every run) the obligations nil-dereference, index/slice bounds, type assertion, division and explicit panic are generated from the SSA and discharged, using a closed table of the node types (GetType contracts generated from the code), representation invariants of the node types (operands never nil; checked wherever a node is published), the error latch of the parse listener, and preconditions on the typed-dispatch helpers that their callers are proved to establish. zitiql.parse is proved to register the caller's error listener on the lexer and on the parser before parsing starts (ghost listener sets), so unrecognised characters and syntax errors reach ParseWithDebug's result.",
+   design="5/C10",
+   note=TRUST + ". Assumed (listed per run): what is on the parse stack when an ANTLR callback runs (grammar + walker order), the tree-shape of the AST during the typing pass (typing one operand leaves its siblings alone), that ANTLR's own runtime terminates without panicking and reports errors to registered listeners. cursors.go is covered under C14.",
+   technique="contract-based deductive verification: zero/thin-annotation safety sweep over go/ssa with type-table and representation-invariant contracts, SMT")
+
 NA = {
 }
 
